@@ -13,7 +13,7 @@
    Proof of the main theorem (Proofs/C09UniqueKer.v, C09UniqueDvd.v): no determinants; a_k | b_k follows from a
    primitive kernel vector of a k x (k+1) block of P1 P2^-1 (see the header of C09UniqueDvd.v); the rank part is
    C07Rank.smith_form_rank_unique. *)
-From Coq Require Import ZArith Znumtheory Arith List Bool.
+From Coq Require Import ZArith Znumtheory Arith List Bool Lia.
 Require Import Yui.Base.Ring Yui.Base.MatF Yui.Base.MatL Yui.Model.Snf.
 Require Import Yui.Model.KhCube Yui.Model.KhHomology.
 Require Import Yui.Proofs.C07Algebra Yui.Proofs.C09UniqueKer Yui.Proofs.C09UniqueDvd Yui.Proofs.C09Unique
@@ -256,9 +256,7 @@ Proof.
   split; [reflexivity|].
   eexists. eexists. split; [exact F|]. split; [exact C|].
   intros k Hk. change (k < 2)%nat in Hk.
-  destruct k as [|[|k]]; [reflexivity|reflexivity|]. exfalso. apply (Nat.lt_irrefl 0). 
-  apply Nat.lt_le_trans with (S (S k)); [apply Nat.lt_0_succ|]. 
-  apply Nat.le_trans with 1%nat; [now apply Nat.lt_succ_r|]. apply Nat.le_0_l.
+  destruct k as [|[|k]]; [reflexivity|reflexivity|lia].
 Qed.
 
 (* ... and every Smith form of exA with a positive divisibility chain is diag(2, 6) *)
@@ -273,7 +271,7 @@ Proof.
   destruct (HU r' a' F' C' P') as [Er Ha].
   vm_compute in E. injection E as <-.
   assert (E2 : r' = 2%nat) by (rewrite <- Er; reflexivity).
-  subst r'. split; [reflexivity|]. split; [rewrite <- (Ha 0%nat) by auto|rewrite <- (Ha 1%nat) by auto]; reflexivity.
+  subst r'. split; [reflexivity|]. split; [rewrite <- (Ha 0%nat) by lia|rewrite <- (Ha 1%nat) by lia]; reflexivity.
 Qed.
 
 (* rank of exA mod 2 is 0, mod 3 is 1, mod 5 is 2 *)
@@ -282,5 +280,6 @@ Example C09_modp_example :
 Proof.
   intros rp c Fp.
   destruct C09_unique_example_spec as [res [_ [HS [Ef _]]]].
-  rewrite (snf_modp_rank 3 prime_3 None 2 3 exA true true true true res rp c HS Fp), Ef. reflexivity.
+  pose proof (snf_modp_rank 3 prime_3 None 2 3 exA true true true true res rp c HS Fp) as H.
+  change (Zpre_dict None) with Z_dict in H. rewrite Ef in H. exact H.
 Qed.
